@@ -832,7 +832,7 @@ def run(rep):
     dis = stage_w(rep, rng, 3000 if thorough else 500)
     found = stage_system(rep, rng, 15 if thorough else 2)
     found += stage_directories(rep, rng)
-    if dis and not found:
+    if dis and not rep.n_with_input:
         i, call, iv, mv = dis[0]
         rep.fail('W:%s - model and implementation disagree (%d cases), e.g. %r: impl %r, model %r' % (
             call[0], len(dis), call[1], iv, mv),
